@@ -186,6 +186,7 @@ def run(ctx):
     from .. import mp_trace
     nev = mp_trace.long_sessions(ctx, wd, 60 if ctx.tier == "quick" else 600, rnd, "C01")
     mp_trace.helper_level(ctx, 40 if ctx.tier == "quick" else 400, rnd)
+    mp_trace.big_upload(ctx, rnd)
     nrepo = mp_trace.pytest_sessions(ctx, wd, common.REPO, tlc.VERIF)
     ctx.bounds["long_sessions"] = {"per_boundary": 60 if ctx.tier == "quick" else 600, "boundaries": len(mp_trace.BOUNDARIES), "events": nev,
                                    "repository_test_sessions": nrepo}
